@@ -168,7 +168,7 @@ CHECKS["C13"] = {
     "pkg": "./props/c13", "engine": "strace-fault-injection",
     "level": "fault_enumeration",
     "technique": "generated crash points: SIGKILL injected with strace at the k-th file-system call of the real relic binary, rapid-drawn (quick) or enumerated over every candidate boundary of a reference trace (thorough)",
-    "level_text": "The relic binary built from the tree signs with the file token to a path other than the input under strace -f with a SIGKILL injected on entry to the k-th openat / write / pwrite64 / copy_file_range / fchmod / ftruncate / close / unlinkat / renameat, for 8 scenarios covering the output strategies (patch-by-rewrite for PE, JAR, PowerShell; copy-then-edit for MSI; whole-file write for PGP detached, catalog, manifest; PGP clearsign merge) x destination absent / pre-existing. Candidate k values come from an uninjected reference trace (every per-thread call index from the creation of the temporary file onwards, plus one); the boundary actually hit is read from the injected run's own trace. After each run: input unchanged; a pre-existing destination still exists; the destination is byte-identical to its previous content or a complete artefact (relic verify, independent well-formedness, PE checksum); no temporary siblings after normal completion; a missing destination directory is a handled error that leaves nothing behind. Quick draws 60 injected runs, thorough runs every candidate.",
+    "level_text": "The relic binary built from the tree signs with the file token to a path other than the input under strace -f with a SIGKILL injected on entry to the k-th openat / write / pwrite64 / copy_file_range / fchmod / ftruncate / close / unlinkat / renameat, for 8 scenarios covering the output strategies (patch-by-rewrite for PE, JAR, PowerShell; copy-then-edit for MSI; whole-file write for PGP detached, catalog, manifest; PGP clearsign merge) x destination absent / pre-existing. Candidate k values come from an uninjected reference trace (every per-thread call index from the creation of the temporary file onwards, plus one); the boundary actually hit is read from the injected run's own trace. A second generator makes the k-th output-phase write / pwrite64 / copy_file_range / fchmod / ftruncate / renameat fail with an error (ENOSPC, EPERM, EIO, EACCES) instead of killing the process: whatever relic's exit status, no temporary sibling may remain and the input is unchanged, and an exit status of 0 requires a complete artefact (quick: 40 drawn points, thorough: every candidate). After each killed run: input unchanged; a pre-existing destination still exists; the destination is byte-identical to its previous content or a complete artefact (relic verify, independent well-formedness, PE checksum); no temporary siblings after normal completion; a missing destination directory is a handled error that leaves nothing behind. Quick draws 60 injected runs, thorough runs every candidate.",
     "level_note": "strace counts per thread and Go moves goroutines between threads, so a given (call, k) may hit different boundaries on different runs; coverage is reported as distinct boundaries hit, not assumed. Process death only: unsynced data after power loss is not modelled. The PE checksum fix-up window is a listed finding.",
     "quick": {"checks": 120, "timeout": 1500, "env": {"VERIF_C13_RUNS": 60}},
     "thorough": {"checks": 1, "timeout": 3400, "env": {"VERIF_C13_ROUNDS": 8}},
@@ -177,7 +177,7 @@ CHECKS["C14"] = {
     "pkg": "./props/c14", "race": True, "engine": "rapid+race-detector",
     "level": "exploration",
     "technique": "property-based testing (rapid) of generated concurrent request mixes against the real daemon built with the Go race detector; per-request isolated-verdict oracle",
-    "level_text": "Generated mixes of 4-64 requests (sign over 5 signature types x 7 keys incl. two behind a latency-injecting recording token x 3 digests x generated bodies; list-keys; key-info incl. forbidden and unknown keys; health) are issued by 2-32 concurrent clients over TLS to the real daemon with GOMAXPROCS in {2,4,16}, token cache expiry 1 s and an optional token rate limit; one mix in six shuts the daemon down while a request is parked inside the token. Each response is compared with its isolated verdict (signature applied to that request's own body verifies under relic's verifier and names that request's key and digest; listings equal the configuration), audit records are counted, and the whole run is under the race detector.",
+    "level_text": "Generated mixes of 4-64 requests (sign over 5 signature types x 7 keys incl. two behind a latency-injecting recording token x 3 digests x generated bodies; list-keys; key-info incl. forbidden and unknown keys; health) are issued by 2-32 concurrent clients over TLS to the real daemon (one child process of the same race-built binary per mix, living exactly as long as Serve, like the serve command) with GOMAXPROCS in {2,4,16}, token cache expiry 1 s and an optional token rate limit; one mix in six shuts the daemon down while a request is parked inside the token. Each response is compared with its isolated verdict (signature applied to that request's own body verifies under relic's verifier and names that request's key and digest; listings equal the configuration), audit records are counted, and the whole run is under the race detector.",
     "level_note": "Interleavings are sampled by repetition, not enumerated; the race detector only sees accesses that happen. PKCS#11/cloud tokens and the worker subprocess path are not exercised here.",
     "quick": {"checks": 40, "timeout": 900, "vmem_kb": 0},
     "thorough": {"checks": 1200, "timeout": 3400, "vmem_kb": 0, "shards": 4},
@@ -189,8 +189,8 @@ CHECKS["C11"] = {
     "level_text": "Inputs are 1-4 structure-aware corruptions (offset/length-looking fields set to boundary values, bit flips, truncation, duplication / deletion / zeroing / insertion of chunks, cross-format splices) of 60+ valid and relic-signed artefacts of all 19 signer modules (fixtures and signed siblings) or of the upload stream the client transform produces, presented to verify (integrity + chain), the is-signed probe, the client transform, server-side Sign, transform-then-Sign, type detection and the certificate loader, with the module detected or forced. Each case runs in an isolation child under a 6 GiB address-space cap: the child must stay alive (no panic in any goroutine, no runtime abort), report no recovered panic, allocate <= 96 MiB + 512 x input bytes in total and burn <= 15 s + 20 ms/KiB CPU, and not block. Saved crashers (testdata/crashers) are replayed first. The thorough tier adds a coverage-guided go fuzz campaign over (entry, module, bytes) seeded with all bases and crashers.",
     "level_note": "Resource proportionality is judged against fixed generous multiples, not asymptotically. Wall-clock time is never a verdict. Failures inside the third-party RPM reader are listed findings keyed by site. The HTTP layer in front of Sign is exercised by C14/C04, not here. Native fuzzing cannot be seeded: its saved crasher is the reproducible unit.",
     "run": "^TestC11",
-    "quick": {"checks": 6000, "timeout": 1500, "shards": 4},
-    "thorough": {"checks": 60000, "timeout": 3400, "shards": 8,
+    "quick": {"checks": 25000, "timeout": 1500, "shards": 8},
+    "thorough": {"checks": 400000, "timeout": 3400, "shards": 12,
                  "fuzz": {"pkg": "./props/c11f", "target": "FuzzEntry", "time": "1500s", "parallel": 8}},
 }
 for _pid in CHECKS:
